@@ -78,16 +78,17 @@ type ConnPlan struct {
 }
 
 type Scenario struct {
-	Kind    string     `json:"kind"` // plan | toctou
-	Pool    int        `json:"pool"` // MaxInvoke
-	QCap    int        `json:"qcap"` // QueueCap
-	Conns   []ConnPlan `json:"conns"`
-	Trigger string     `json:"trigger"` // when Shutdown is called: idle | parsed | started | done
-	CtxMs   int        `json:"ctx_ms"`
-	StaleMs int        `json:"stale_ms,omitempty"` // idle time before the requests (toctou)
-	Seq     bool       `json:"seq,omitempty"`      // a connection's requests are written only after the server has read the previous connection's
-	Model   bool       `json:"model"`
-	Repeat  int        `json:"repeat,omitempty"`
+	Kind            string     `json:"kind"` // plan | toctou
+	Pool            int        `json:"pool"` // MaxInvoke
+	QCap            int        `json:"qcap"` // QueueCap
+	Conns           []ConnPlan `json:"conns"`
+	Trigger         string     `json:"trigger"` // when Shutdown is called: idle | parsed | started | done
+	CtxMs           int        `json:"ctx_ms"`
+	StaleMs         int        `json:"stale_ms,omitempty"`          // idle time before the requests (toctou)
+	HandleTimeoutMs int        `json:"handle_timeout_ms,omitempty"` // TarsServerConf.HandleTimeout (0: none)
+	Seq             bool       `json:"seq,omitempty"`               // a connection's requests are written only after the server has read the previous connection's
+	Model           bool       `json:"model"`
+	Repeat          int        `json:"repeat,omitempty"`
 	// kind "app": a real application (tars.Run) with one TarsServer per adapter, all with the pool
 	// settings above, shut down through the framework's own graceful shutdown (SIGTERM → graceShutdown);
 	// CtxMs is the gracedowntimeout
@@ -254,7 +255,15 @@ func (p *proto) ParsePackage(b []byte) (int, int) {
 	return l, transport.PackageFull
 }
 
-func (p *proto) InvokeTimeout(pkg []byte) []byte { return nil }
+// InvokeTimeout: the framework's answer when Invoke has not returned within HandleTimeout; for the client
+// it is the response to that request.
+func (p *proto) InvokeTimeout(pkg []byte) []byte {
+	out := make([]byte, rspLen)
+	binary.BigEndian.PutUint32(out, rspLen)
+	copy(out[4:8], pkg[4:8])
+	out[8] = kindRsp
+	return out
+}
 
 func (p *proto) GetCloseMsg() []byte {
 	out := make([]byte, rspLen)
@@ -436,7 +445,8 @@ func runScenario(sc Scenario) (out outcome) {
 		}
 		conf := &transport.TarsServerConf{Proto: "tcp", Address: a, MaxInvoke: int32(sc.Pool), QueueCap: sc.QCap,
 			AcceptTimeout: 500 * time.Millisecond, IdleTimeout: time.Hour, TCPNoDelay: true,
-			TCPReadBuffer: 64 * 1024, TCPWriteBuffer: 64 * 1024}
+			TCPReadBuffer: 64 * 1024, TCPWriteBuffer: 64 * 1024,
+			HandleTimeout: time.Duration(sc.HandleTimeoutMs) * time.Millisecond}
 		s := transport.NewTarsServer(p, conf)
 		if err := s.Listen(); err != nil {
 			if try < 8 {
@@ -1086,6 +1096,11 @@ func fixedScenarios() []Scenario {
 		// silence: the connection must still be there when the poll sends the close message
 		{Kind: "plan", Conns: []ConnPlan{{Reqs: late(20, 0)}, {Reqs: late(150, 0)}, {Reqs: late(300, 10)}, {Reqs: late(430, 0)}}, Trigger: "idle", CtxMs: 6000, Model: true},
 		{Kind: "plan", Pool: 2, QCap: 64, Conns: []ConnPlan{{Reqs: late(120, 0)}, {Reqs: r(40)}, {Reqs: late(380, 20)}}, Trigger: "done", CtxMs: 6000, Model: true},
+		// HandleTimeout > 0 with a pool: a pipelined backlog whose wait in the job queue is far longer than
+		// HandleTimeout (each handler stays below it); the connection must stay open until the last
+		// queued request has been executed and answered
+		{Kind: "plan", Pool: 1, QCap: 16, HandleTimeoutMs: 400, Conns: []ConnPlan{{Reqs: r(200, 200, 200, 200, 200, 200, 200, 200, 200, 200, 200)}}, Trigger: "started", CtxMs: 9000},
+		{Kind: "plan", Pool: 2, QCap: 64, HandleTimeoutMs: 300, Conns: []ConnPlan{{Reqs: r(150, 150, 150, 150, 150, 150, 150, 150)}, {Reqs: r(150, 150, 150, 150, 150, 150, 150, 150, 150, 150, 150, 150, 150, 150, 150, 150, 150, 150)}}, Trigger: "started", CtxMs: 9000},
 		// slow readers: the responses of one connection exceed the socket buffers and the client does not
 		// read from before the shutdown until well after the drain poll; every response, then the close
 		// message, then EOF must still arrive
